@@ -30,8 +30,15 @@ TUNNEL_MENU = ["200", "407", "garbage", "eof"]
 TLS_MENU = ["ok", "certfail", "reset"]
 SEND_MENU = ["ok", "epipe", "reset", "unreach", "intr"]
 STATUS_MENU = ["200ka", "200close", "short", "body-reset", "body-timeout", "body-intr", "301", "503",
-               "timeout", "reset", "eof", "garbage", "intr", "chunked", "chunked-cut"]
-MENUS = {"connect": CONNECT_MENU, "tunnel": TUNNEL_MENU, "tls": TLS_MENU, "send": SEND_MENU, "status": STATUS_MENU}
+               "timeout", "reset", "eof", "garbage", "intr", "chunked", "chunked-cut",
+               # a response http.client treats as will_close (it detaches the socket from the connection object
+               # and leaves it to the response) whose body then stalls / is reset before its end
+               "close-body-timeout", "close-body-reset",
+               # a retryable status that asks the client to wait: the wait itself is an environment step
+               "503ra"]
+SLEEP_MENU = ["ok", "intr"]
+MENUS = {"connect": CONNECT_MENU, "tunnel": TUNNEL_MENU, "tls": TLS_MENU, "send": SEND_MENU, "status": STATUS_MENU,
+         "sleep": SLEEP_MENU}
 
 
 class Env:
@@ -98,10 +105,19 @@ class C01Server(Server):
             return [b"\x00\x01 garbage\r\n\r\n", EOF], False
         return [EOF], False
 
+    def on_sleep(self, seconds):
+        if self.w.env.choose("sleep") == "intr":
+            raise self.w.intr()
+
     def on_request(self, sock, req, idx):
         w = self.w
         a = w.env.choose("status")
         loc = w.redirect_target
+        if a in ("close-body-timeout", "close-body-reset"):
+            tail = STALL if a == "close-body-timeout" else ConnectionResetError(errno.ECONNRESET, "reset")
+            return [b"HTTP/1.1 200 OK\r\nConnection: close\r\nContent-Length: 15\r\n\r\n" + BODY, tail]
+        if a == "503ra":
+            return [response(503, b"busy", headers=[("Retry-After", "1")])]
         if a == "200ka":
             return [response(200, BODY)]
         if a == "200close":
@@ -204,6 +220,8 @@ class World:
         # a preloaded response kept by release_conn=False has no body left: partial reads and
         # stream() are no-ops on it and are not ways of disposing of it
         kinds = ("read", "release", "drain", "close") if self.cfg["preload"] else ("read", "read3", "release", "drain", "close", "stream")
+        if not self.cfg["preload"] and self.cfg.get("more_ops"):
+            kinds += ("iter", "read1", "readinto")  # thorough tier: the remaining ways of consuming a body to its end
         for i in range(len(self.out)):
             o += [(k, i) for k in kinds]
         return o
@@ -246,6 +264,19 @@ class World:
                         self.out.pop(op[1])
                     elif k == "stream":
                         for _ in r.stream(4):
+                            pass
+                        self.out.pop(op[1])
+                    elif k == "iter":
+                        for _ in r:
+                            pass
+                        self.out.pop(op[1])
+                    elif k == "read1":
+                        while r.read1(4):
+                            pass
+                        self.out.pop(op[1])
+                    elif k == "readinto":
+                        buf = bytearray(4)
+                        while r.readinto(buf):
                             pass
                         self.out.pop(op[1])
                     res = ("ok",)
@@ -346,7 +377,8 @@ def configs(thorough):
             for block in (False, True):
                 for retries in (("False", "0", "1", "R2") if thorough else ("False", "1", "R2")):
                     for preload, release in modes:
-                        out.append(dict(kind=kind, maxsize=maxsize, block=block, retries=retries, preload=preload, release=release))
+                        out.append(dict(kind=kind, maxsize=maxsize, block=block, retries=retries, preload=preload, release=release,
+                                        more_ops=bool(thorough)))
     return out
 
 
@@ -358,6 +390,7 @@ def is_core(cfg):
 def explore_config(task):
     """BFS for one configuration: returns Acc with counters states/transitions."""
     cfg, dev, depth, max_states = task[:4]
+    only_first = task[5] if len(task) > 5 else None  # restrict the FIRST operation (work split of deep searches)
     acc = Acc()
     w0 = build(cfg, [])
     seen = {digest(w0.canon())}
@@ -371,6 +404,8 @@ def explore_config(task):
         for hist in frontier:
             w = build(cfg, hist)
             for op in w.ops():
+                if only_first is not None and not hist and tuple(op) != tuple(only_first):
+                    continue
                 # deviation-bounded DFS over the environment answers of this one operation
                 stack = [((), 0)]
                 while stack:
@@ -428,8 +463,17 @@ def run(ctx):
     passes = plan(ctx.thorough)
     tasks = []
     for label, cfgs, dev, depth, cap in passes:
-        tasks += [(c, dev, depth, cap, label) for c in cfgs]
-    acc = ctx.gather(explore_config, tasks)
+        for c in cfgs:
+            if depth >= 3:
+                # deep searches are split by their first operation (each part dedups states on its own)
+                for op in build(c, []).ops():
+                    tasks.append((c, dev, depth, cap, label, tuple(op)))
+            else:
+                tasks.append((c, dev, depth, cap, label))
+    def weight(t):
+        c, dev, depth = t[0], t[1], t[2]
+        return (depth ** 2) * (1 + dev) * {"False": 1, "0": 1, "1": 2, "R2": 4}[c["retries"]] * (1 if c["preload"] else 2) * c["maxsize"]
+    acc = ctx.gather(explore_config, tasks, weight=weight)
     states = acc.counters["states"]
     answers = {k for k in acc.counters if k.startswith("answer:")}
     want = {"answer:%s:%s" % (k, m) for k, menu in MENUS.items() for m in menu}
